@@ -320,6 +320,9 @@ pub fn gen_scen(rng: &mut Rng, _thorough: bool) -> Scen {
             let mut seeds = serde_json::Map::new();
             let mut slow = 0;
             for sd in 0..n { if rng.chance(1, 2) && slow < 3 { slow += 1; seeds.insert(sd.to_string(), json!({"wait": true, "fork": *rng.pick(&["none", "keep", "detach-stdio"]), "ignore_term": true, "value_of_seed": "neg"})); } }
+            // a child that answers and EXITS while a background process of its group keeps the output pipe open: the
+            // evaluation cannot complete (no EOF), so the time limit must kill the group - the leader is already gone
+            for sd in 0..n { if !seeds.contains_key(&sd.to_string()) && slow < 3 && rng.chance(1, 3) { slow += 1; seeds.insert(sd.to_string(), json!({"fork": "keep", "value_of_seed": "neg"})); } }
             if slow == n { seeds.remove("0"); slow -= 1; }
             sc.plan = json!({"default": {"value_of_seed": "neg"}, "seeds": seeds});
             sc.expect = json!({"exit": "ok", "starts": n, "survivors": 0, "accepted": n - slow, "rejected": slow, "fastNotKilled": true});
